@@ -50,11 +50,19 @@ func main() {
 			os.Exit(2)
 		}
 		tab := m.currentNames()
+		for k, v := range m.currentFields() {
+			for t, fs := range v {
+				tab[k][t] = fs
+			}
+		}
 		for _, extra := range pluginModuleDirs {
 			if pm, err := loadModule(filepath.Join(*repo, extra), false, nil); err == nil {
 				for k, v := range pm.currentNames() {
 					if _, have := tab[k]; !have {
 						tab[k] = v
+						for t, fs := range pm.currentFields()[k] {
+							tab[k][t] = fs
+						}
 					}
 				}
 			}
